@@ -299,7 +299,7 @@ pub fn property() -> Property {
     Property {
         id: "C11",
         level: "exploration",
-        rule: "generated: one BackwardEngine (memoisation on 3/4, DFS or BFS, max_depth 0..4, max_solutions 1/3, optionally an attached IncrementalEngine) over a Horn KB of 1-5 rules; histories of 3-7 steps: query (half of them repeat an earlier goal, in one of three spellings: canonical, no blanks, doubled blanks), assert/change a base fact (including type twins: the same text as a string instead of a number/boolean), remove a base or derived fact, hand in a brand-new equal store, retract all logical facts in the attached RETE engine, in one history of three one query asked through GRLQueryExecutor::execute (a GRLQuery carrying its own configuration), and in one history of three a set_config call (other strategy / max_solutions / memo flag, mostly the same max_depth) after which the fresh engine is built with the new configuration; always ending with a query. Oracle: for every query, provable equals the answer of a freshly constructed engine (same KB, same config, fresh RETE engine if attached) on a deep copy of the facts as they were just before the query. Non-trivial: a goal is repeated after the facts changed so that the fresh engine's answer flips, or repeated on an equal store; distinct by (KB, store, config, history).",
+        rule: "generated: one BackwardEngine (memoisation on 3/4, DFS or BFS, max_depth 0..4, max_solutions 1/3, optionally an attached IncrementalEngine) over a Horn KB of 1-5 rules; histories of 3-7 steps: query (half of them repeat an earlier goal, in one of three spellings: canonical, no blanks, doubled blanks), assert/change a base fact (including type twins: the same text as a string instead of a number/boolean), remove a base or derived fact, hand in a brand-new equal store, retract all logical facts in the attached RETE engine, in one history of three one query asked through GRLQueryExecutor::execute (a GRLQuery carrying its own configuration), and in one history of three a set_config call (other strategy / max_solutions / memo flag, mostly the same max_depth) after which the fresh engine is built with the new configuration; always ending with a query. Oracle: for every query, provable equals the answer of a freshly constructed engine (same KB, same config, fresh RETE engine if attached) on a deep copy of the facts as they were just before the query. Non-trivial: a goal is repeated after the facts changed so that the fresh engine's answer flips, or repeated on an equal store; distinct by (KB, store, config, history). The object under test is built with new() or with default() in turn (by a hash of the case's data, no draw).",
         assumptions: vec!["the fresh engine is the same code without history: the oracle isolates exactly the dependence on history; engine errors/panics are counted, not judged".into()],
         parts: vec![Part { name: "random", run, quick: Budget::Random { cases: 400_000, bytes: 400 }, thorough: Budget::Random { cases: 10_000_000, bytes: 400 }, min_nontrivial_pct: 15 }],
         watchdog: true,
